@@ -1,7 +1,118 @@
 import Driver.Util
+import Model.Skylight
+/-! Driver for engine `health` (C20), function mode.
+
+Per case the harness states, for every configured entry, which conditions hold in the directory it
+built (bit strings in the order of the constructors of `LogCond`, `WitCond`, `WLogCond`), and what the
+built skylight binary answered. The driver evaluates `Skylight.Health.status` / `lines` — the
+definitions `Props/C20.lean` is about — and compares status and lines (as multisets: the handler walks
+a Go map).
+
+  hcase <id>
+  log <hex name> <staging> <past> <15 bits>
+  wit <i> <mirror> <staging> <9 bits>
+  wl <i> <hash> <hex origin> <10 bits>
+  res <status>
+  line <hex label> ok|readOnly|ignored|failed <kind | ->        kind = log:<n> | wit:<n> | wlog:<n> | other
+  end <id>
+-/
 namespace Driver.Health
-/-- stub: engine not implemented yet -/
+open Skylight.Health
+
+def logConds : List LogCond :=
+  [.jsonRead, .jsonParses, .keyParses, .verifierOk, .ckptRead, .sigVerifies, .ckptParses, .originMatches, .sigTimestamp,
+   .limitParses, .hasFinal, .finalHash, .finalSize, .finalTime, .fresh]
+def witConds : List WitCond :=
+  [.infoRead, .infoParses, .keysNonEmpty, .keysValid, .pInfoRead, .pInfoParses, .pKeysNonEmpty, .pKeysValid, .enumOk]
+def wlogConds : List WLogCond :=
+  [.ckptRead, .sigVerifies, .ckptParses, .hashMatches, .edgeOk, .pendRead, .pendVerifies, .pendParses, .pendOrigin, .notAhead]
+
+def idxOf {α : Type} [DecidableEq α] (l : List α) (a : α) : Nat := (l.findIdx? (· == a)).getD 0
+
+/-- a bit string as a truth assignment on an enumeration -/
+def holdsOf {α : Type} [DecidableEq α] (l : List α) (bits : String) : α → Bool :=
+  let bs := bits.toList
+  fun a => bs.getD (idxOf l a) '1' == '1'
+
+def unhexStr (s : String) : String :=
+  match Bytes.ofHex s with
+  | some b => String.ofList (b.map fun c => Char.ofNat c.toNat)
+  | none => s
+
+def showKind : ErrKind → String
+  | .log k => s!"log:{idxOf logConds k}"
+  | .wit k => s!"wit:{idxOf witConds k}"
+  | .wlog k => s!"wlog:{idxOf wlogConds k}"
+
+def showLine (ln : Line) : String :=
+  match ln.2 with
+  | .ok => s!"{ln.1} ok -"
+  | .readOnly => s!"{ln.1} readOnly -"
+  | .ignored k => s!"{ln.1} ignored {showKind k}"
+  | .failed k => s!"{ln.1} failed {showKind k}"
+
+def sortStrings (l : List String) : List String := (l.toArray.qsort (· < ·)).toList
+
+structure St where
+  t : Driver.Tally := {}
+  caseId : String := ""
+  logs : Array LogEntry := #[]
+  wits : Array WitEntry := #[]
+  status : Nat := 0
+  got : List String := []
+
+def finishCase (s : St) (lineno : Nat) : IO St := do
+  let cfg : Config := { logs := s.logs.toList, wits := s.wits.toList }
+  let wantStatus := status cfg
+  let want := sortStrings ((lines cfg).map showLine)
+  let got := sortStrings s.got
+  let mut t := s.t
+  let mut bad := false
+  if wantStatus ≠ s.status then
+    bad := true
+    IO.println s!"MISMATCH {lineno} case {s.caseId}: status: implementation {s.status}, model {wantStatus}"
+  if want ≠ got then
+    bad := true
+    let onlyModel := want.filter (fun x => !got.contains x)
+    let onlyImpl := got.filter (fun x => !want.contains x)
+    IO.println s!"MISMATCH {lineno} case {s.caseId}: lines differ: only-model={onlyModel.take 3} only-implementation={onlyImpl.take 3}"
+  t := t.bump s!"status:{wantStatus}"
+  for ln in lines cfg do
+    t := match ln.2 with
+      | .ok => t.bump "ok"
+      | .readOnly => t.bump "readOnly"
+      | .ignored k => t.bump ("ignored:" ++ showKind k)
+      | .failed k => t.bump ("failed:" ++ showKind k)
+  t := if bad then { t with mismatches := t.mismatches + 1 } else { t with ok := t.ok + 1 }
+  return { t := t }
+
+def step (s : St) (lineno : Nat) (line : String) : IO St := do
+  let s := { s with t := { s.t with lines := s.t.lines + 1 } }
+  match Driver.words line with
+  | ["hcase", id] => return { s with caseId := id, logs := #[], wits := #[], status := 0, got := [] }
+  | ["log", name, staging, past, bits] =>
+    return { s with logs := s.logs.push ⟨unhexStr name, staging == "1", past == "1", holdsOf logConds bits⟩ }
+  | ["wit", _i, mirror, staging, bits] =>
+    return { s with wits := s.wits.push ⟨mirror == "1", staging == "1", holdsOf witConds bits, []⟩ }
+  | ["wl", i, hash, origin, bits] =>
+    let i := i.toNat!
+    if h : i < s.wits.size then
+      let w := s.wits[i]
+      return { s with wits := s.wits.set i { w with logs := w.logs ++ [⟨hash, unhexStr origin, holdsOf wlogConds bits⟩] } }
+    else return s
+  | ["res", code] => return { s with status := code.toNat! }
+  | ["line", label, cls, kind] =>
+    let k := if kind == "-" then "-" else kind
+    return { s with got := s!"{unhexStr label} {cls} {k}" :: s.got }
+  | ["end", _] => finishCase s lineno
+  | [] => return s
+  | _ =>
+    IO.println s!"MISMATCH {lineno} unparsable line: {line.take 80}"
+    return { s with t := { s.t with mismatches := s.t.mismatches + 1 } }
+
 def main : IO UInt32 := do
-  IO.println "MISMATCH 0 engine health has no driver yet"
+  let s ← Driver.foldLines ({} : St) step
+  IO.println s.t.summary
   return 0
+
 end Driver.Health
